@@ -53,7 +53,7 @@ func TestVerif_C08_FindProviders(t *testing.T) {
 				for j := rapid.IntRange(0, 10).Draw(t, "nKnows"); j > 0; j-- {
 					p.Knows = append(p.Knows, rapid.IntRange(0, n-1).Draw(t, "knows"))
 				}
-				if rapid.IntRange(0, 2).Draw(t, "hasProv") != 0 {
+				if verifsim.Chance(t, "hasProv", 75) {
 					for j := rapid.IntRange(1, 5).Draw(t, "nProv"); j > 0; j-- {
 						p.Provs = append(p.Provs, rapid.IntRange(-5, n-1).Draw(t, "prov"))
 					}
@@ -62,7 +62,7 @@ func TestVerif_C08_FindProviders(t *testing.T) {
 			}
 			ns := rapid.IntRange(1, min(n, s.K+2)).Draw(t, "nSeeds")
 			s.Seeds = rapid.SliceOfNDistinct(rapid.IntRange(0, n-1), ns, ns, func(i int) int { return i }).Draw(t, "seeds")
-			sc.Count = rapid.SampledFrom([]int{0, 1, 2, 3, s.K, 50}).Draw(t, "count")
+			sc.Count = rapid.SampledFrom([]int{0, 1, 1, 2, 2, 3, s.K, 50}).Draw(t, "count")
 			sc.Local = rapid.SliceOfN(rapid.IntRange(-4, n-1), 0, 3).Draw(t, "local")
 			sc.LocalAdr = rapid.Bool().Draw(t, "localAddr")
 			if rapid.IntRange(0, 5).Draw(t, "cancel") == 0 {
